@@ -56,6 +56,7 @@ def main():
     shutil.rmtree(scratch_root, ignore_errors=True)
     # restore lean/SSJ/Gen for /repo itself
     run([sys.executable, os.path.join(VERIF, 'tools', 'py2lean.py'), '/repo', os.path.join(VERIF, 'lean', 'SSJ', 'Gen')], cwd=VERIF)
+    run([sys.executable, os.path.join(VERIF, 'tools', 'py2lean2.py'), '/repo', os.path.join(VERIF, 'lean', 'SSJ', 'Gen')], cwd=VERIF)
     with open(os.path.join(SEEDED, 'RESULTS.md'), 'w') as f:
         f.write('# Quick checks against the stored seeded changes (tools/run_seeded_all.py)\n\n')
         f.write('| seeded change | property | exit | outcome |\n|---|---|---|---|\n')
